@@ -465,9 +465,12 @@ class Evaluator:
         elif isinstance(target, ast.Subscript):
             b = self.ev(target.value, st)
             idx = self.ev(target.slice, st)
-            local = b[0] in ("dict", "list") and isinstance(target.value, ast.Name)
+            compdict = b[0] == "comp" and b[1] == "dict" and isinstance(target.value, ast.Name)
+            local = (b[0] in ("dict", "list") and isinstance(target.value, ast.Name)) or compdict
             self.emit(st, "store", (b, idx, val, "container" if local else "array"), target)
-            if local and b[0] == "dict":
+            if compdict:
+                st.env[target.value.id] = ("dict", ((None, b), (idx, val)))
+            elif local and b[0] == "dict":
                 st.env[target.value.id] = ("dict", b[1] + ((idx, val),))
         else:
             raise Unsupported("assignment target " + type(target).__name__)
